@@ -102,4 +102,70 @@ theorem probing_end_to_end_partial (combine : Nat → Word → Nat) (a : Arpa) (
   obtain ⟨s, Mmid, Mlong, hb, rep⟩ := hrep
   exact ⟨s, hb, KV.C03.probing_prob a wf (fun _ => false) combine _ Mmid Mlong rep inj h st sf w hw⟩
 
+/-! ### non-vacuity -/
+
+/-- a concrete (injective on the examples) word-hash combiner -/
+def cmb (c : Nat) (w : Word) : Nat := c * 16 + w + 1
+
+/-- a concrete `ArpaOK` instance: the hypotheses of `probing_build_represents_closed` are satisfiable -/
+theorem demoClosed_ok : ArpaOK KV.C01.demoClosed 4 (-100) := by
+  refine ⟨KV.C01.demoClosed_wf, KV.C01.demoClosed_closed, ?_, ?_, ?_, by decide +kernel⟩
+  · intro g e h
+    have hm := lookup_some_mem _ _ _ h
+    simp [KV.C01.demoClosed] at hm
+    rcases hm with h | h | h | h | h | h | h <;> (obtain ⟨_, rfl⟩ := h) <;> decide +kernel
+  · intro w
+    constructor
+    · intro h
+      match w, h with
+      | 0, _ => decide +kernel
+      | 1, _ => decide +kernel
+      | 2, _ => decide +kernel
+      | 3, _ => decide +kernel
+    · intro h
+      obtain ⟨e, he⟩ := Option.ne_none_iff_exists'.mp h
+      have hm := lookup_some_mem _ _ _ he
+      simp [KV.C01.demoClosed] at hm
+      rcases hm with h | h | h | h <;> (obtain ⟨rfl, _⟩ := h) <;> decide
+  · intro h; exact absurd h (by decide)
+
+example : ∃ s Mmid Mlong, build cmb false KV.C01.demoClosed 4 [4, 4] (-100) = .ok s ∧
+    Represents cmb (toPLM false KV.C01.demoClosed.order s) (KV.Table.build KV.C01.demoClosed) Mmid Mlong :=
+  KV.C03ProbingBuild.probing_build_represents_closed cmb KV.C01.demoClosed 4 [4, 4] (-100) demoClosed_ok
+    (by decide +kernel) (by decide +kernel) (by intro m; match m with
+      | 0 => decide +kernel | 1 => decide +kernel | 2 => decide +kernel | 3 => decide +kernel
+      | m+4 => simp [linesOf, ngramLines, KV.C01.demoClosed, capOf])
+
+/-- "a b c d" (1 2 3 4) present with contexts "a b c", "a b"; its suffixes "b c d" and "c d" are pruned:
+two-level blank chain [4,3,2] → [4,3] based on the unigram 4 -/
+def demoPruned : Arpa :=
+  { order := 4,
+    entries := [([0], ⟨-5, 0, false⟩), ([1], ⟨-1, -1/2, false⟩), ([2], ⟨-1, -1/4, false⟩), ([3], ⟨-2, -1/8, false⟩), ([4], ⟨-3, 0, false⟩),
+                ([2,1], ⟨-1/2, -1/16, false⟩), ([3,2], ⟨-3/4, -1/32, false⟩), ([3,2,1], ⟨-1/3, -1/64, false⟩), ([4,3,2,1], ⟨-1/5, 0, false⟩)] }
+
+/-- the built structure holds every key of `Table.build a` with the payload it prescribes -/
+def repCheck (combine : Nat → Word → Nat) (a : Arpa) (st : St) : Bool :=
+  (keys a).all fun g =>
+    match (KV.Table.build a).lookup g with
+    | none => true
+    | some t =>
+      match g with
+      | [] => true
+      | [w] => wFound false (st.uni.getD w default) == toFound t
+      | _ =>
+        if g.length == a.order then
+          match KV.Probing.find id st.longest.t (hashOf combine g) with
+          | some (some i) => -(st.longest.pay.getD i default).mag == t.prob
+          | _ => false
+        else
+          match KV.Probing.find id (st.mid.getD (g.length - 2) default).t (hashOf combine g) with
+          | some (some i) => wFound false ((st.mid.getD (g.length - 2) default).pay.getD i default) == toFound t
+          | _ => false
+
+example : (KV.Table.build demoPruned).lookup [4,3,2] = some ⟨-1/32 + (-1/8 + -3), 0, true, false, true⟩ := by decide +kernel
+example : (KV.Table.build demoPruned).lookup [4,3] = some ⟨-1/8 + -3, 0, true, false, true⟩ := by decide +kernel
+example : (match build cmb false demoPruned 5 [4, 4, 4] (-100) with
+    | .ok st => repCheck cmb demoPruned st
+    | .error _ => false) = true := by decide +kernel
+
 end KV.C03ProbingBuild
